@@ -7,8 +7,10 @@ from . import pysrc
 FETCH_T = "option Z -> option Z -> bool -> list ivl"
 
 # Gen/Source.v may mention the models' data types and library models (freq, zmem, sl_add, ...)
+# (Model.Metrics and Model.Slice first: Slice's error type shares constructor names with Model.Loop's exn,
+# which must win; both define a type `bound`: the sum-type specs below use qualified names)
 HEADER = pysrc.HEADER.replace("From CG Require Import Model.Loop.",
-                              "From CG Require Import Model.Loop Model.Recur Model.Cache.")
+                              "From CG Require Import Model.Metrics Model.Slice Model.Loop Model.Recur Model.Cache.")
 
 # self.freq is one of four strings: an enumeration (Model/Recur.v)
 FREQ = {"FREQ": ("freq_eqb", {"daily": "Daily", "weekly": "Weekly", "monthly": "Monthly", "yearly": "Yearly"})}
@@ -150,6 +152,248 @@ SPECS = [
          locals={"current_subtractor": "OIVL"}, inline=["advance_subtractor"],
          text_exprs={"heapq.merge(*sub_streams, key=lambda event: (event.finite_start, event.finite_end))":
                      ("(merge_by lt_fwd sub_streams)", "LIST")}),
+]
+
+# ------------------------------------------------------------------------------------------------
+# Second extension.  core.py: _SourceState is the record sstate of Model/Sweeps.v (the iterator is the
+# list of the items not yet consumed); its methods return (the object afterwards, the result).
+SS_REC = {"SS": dict(coq="sstate", mk="mkS", cls="_SourceState",
+                     fields=[("current", "cur", "OIVL"), ("_iterator", "rest", "LIST"),
+                             ("exhausted", "exh", "B"), ("last_processed_cutoff", "lpc", "OZ")],
+                     default="(mkS None [] true None)")}
+CORE = "calgebra/core.py"
+
+_B = {"{x} is None": ("false", "B"), "isinstance({x}, int)": ("false", "B"), "isinstance({x}, datetime)": ("false", "B"),
+      "{x}.tzinfo is None": None, "int({x}.timestamp())": None}
+BOUND_SUM = {"BOUND": dict(
+    coq="Slice.bound",
+    ctors=[("Slice.BNone", []), ("Slice.BInt", [("z", "Z")]), ("Slice.BAware", [("t", "Z"), ("zone", "N")]),
+           ("Slice.BNaive", []), ("Slice.BOther", [])],
+    exprs={"Slice.BNone": dict(_B, **{"{x} is None": ("true", "B")}),
+           "Slice.BInt": dict(_B, **{"isinstance({x}, int)": ("true", "B"), "{x}": ("{z}", "Z")}),
+           "Slice.BAware": dict(_B, **{"isinstance({x}, datetime)": ("true", "B"), "{x}.tzinfo is None": ("false", "B"),
+                                       "int({x}.timestamp())": ("{t}", "Z")}),
+           "Slice.BNaive": dict(_B, **{"isinstance({x}, datetime)": ("true", "B"), "{x}.tzinfo is None": ("true", "B")}),
+           "Slice.BOther": dict(_B)})}
+_PL = ["hour", "day", "week", "month", "year", "full"]
+_PC = ["Metrics.PHour", "Metrics.PDay", "Metrics.PWeek", "Metrics.PMonth", "Metrics.PYear", "Metrics.PFull"]
+PERIOD_SUM = {"PERIOD": dict(
+    coq="Metrics.period", ctors=[(c, []) for c in _PC],
+    exprs={c: {"{x} == '%s'" % lit: (("true" if lit == l else "false"), "B") for lit in _PL} for c, l in zip(_PC, _PL)})}
+# the slice step: SNone = None; SInt z = an int, or a value equal to one (True, 1.0: `x in (1, -1)` and
+# `x == -1` compare by ==); SOther = a value that is not None and equals neither 1 nor -1
+STEP_SUM = {"STEP": dict(
+    coq="Slice.stepv", ctors=[("Slice.SNone", []), ("Slice.SInt", [("z", "Z")]), ("Slice.SOther", [])],
+    exprs={"Slice.SNone": {"{x} is not None": ("false", "B"), "{x} not in (1, -1)": ("true", "B"), "{x} == -1": ("false", "B")},
+           "Slice.SInt": {"{x} is not None": ("true", "B"), "{x} not in (1, -1)": ("(negb (zmem {z} [1; (-1)]))", "B"),
+                    "{x} == -1": ("({z} =? (-1))", "B")},
+           "Slice.SOther": {"{x} is not None": ("true", "B"), "{x} not in (1, -1)": ("true", "B"),
+                      "{x} == -1": ("false", "B")}})}
+
+SPECS += [
+    dict(name="g_ss_advance", file=CORE, cls="_SourceState", func="advance", kind="method", records=SS_REC,
+         params=[("self", "SS")], ret="B"),
+    dict(name="g_ss_init", file=CORE, cls="_SourceState", func="__init__", kind="init", records=SS_REC, record="SS",
+         params=[("iterator", "LIST")]),
+    dict(name="g_ss_advance_if_ends_at", file=CORE, cls="_SourceState", func="advance_if_ends_at", kind="method",
+         records=SS_REC, params=[("self", "SS"), ("cutoff", "Z")], ret="B"),
+    dict(name="g_ss_advance_if_stalled", file=CORE, cls="_SourceState", func="advance_if_stalled", kind="method",
+         records=SS_REC, params=[("self", "SS"), ("cutoff", "Z")], ret="B"),
+    dict(name="g_ss_was_processed_at", file=CORE, cls="_SourceState", func="was_processed_at", kind="expr",
+         records=SS_REC, method_of="SS", params=[("self", "SS"), ("cutoff", "Z")], ret="B"),
+    # Intersection._sweep: emit_indices is a frozenset[int] — read as the ascending list of its members
+    # (Model/Loop.v, fs_of_list: trusted reading of the iteration order)
+    dict(name="g_inter_sweep", file=CORE, cls="Intersection", func="_sweep", kind="gen", res=True, records=SS_REC,
+         params=[("streams", "L:LIST"), ("emit_indices", "FS")]),
+    # Intersection.fetch: the operands are values of an abstract type TL with their _is_mask flag and their
+    # fetch as function parameters; the emit-index selection and the time-negation wrapper are translated
+    dict(name="g_inter_fetch", file=CORE, cls="Intersection", func="fetch", kind="expr", res=True, ret="LIST",
+         tyvars=["TL"], types={"TL": "TL"},
+         params=[("self_sources", "L:TL"), ("tl_is_mask", "TL -> bool"), ("tl_fetch", "TL -> " + FETCH_T),
+                 ("start", "OZ"), ("end", "OZ"), ("reverse", "B")],
+         selfattrs={"sources": ("self_sources", "L:TL")},
+         attrs={("TL", "_is_mask"): ("tl_is_mask", "B")},
+         methods={("TL", "fetch"): dict(coq="tl_fetch", args=["OZ", "OZ", "B"], fetch=True, ret="LIST")},
+         calls={"self._sweep": dict(coq="g_inter_sweep", args=["L:LIST", "FS"], ret="LIST", res=True, fuel=True)}),
+    # Timeline._coerce_bound / __getitem__.  A slice bound is a value of the sum type `bound` of Model/Slice.v:
+    #   BNone = None;  BInt z = an int (bool included: isinstance(True, int));  BAware t zone = an aware datetime
+    #   with int(bound.timestamp()) = t;  BNaive = a datetime whose tzinfo is None;  BOther = anything else.
+    # The tests of the source on a bound are read per constructor (TRUSTED table below); the translation is a
+    # `match` whose arms keep only the branch that runs.
+    dict(name="g_coerce_bound", file=CORE, cls="Timeline", func="_coerce_bound", kind="expr", res=True, ret="OZ",
+         file_has=["from datetime import datetime"], types={"N": "N"}, sums=BOUND_SUM,
+         params=[("bound", "BOUND")]),
+    dict(name="g_getitem", file=CORE, cls="Timeline", func="__getitem__", kind="expr", res=True, ret="LIST",
+         types={"N": "N"}, sums=dict(BOUND_SUM, **STEP_SUM),
+         params=[("self_fetch", FETCH_T), ("clipped_fetch", FETCH_T), ("item_start", "BOUND"), ("item_stop", "BOUND"),
+                 ("item_step", "STEP")],
+         text_exprs={"item.start": ("item_start", "BOUND"), "item.stop": ("item_stop", "BOUND"),
+                     "item.step": ("item_step", "STEP")},
+         calls={"self._coerce_bound": dict(coq="g_coerce_bound", args=["BOUND", "STRLIT"], ret="OZ", res=True),
+                "self.fetch": ("self_fetch", ["OZ", "OZ", "B"], "LIST"),
+                # the clipped timeline self & solid: its fetch is a parameter (Model: fetch env (and_ e Solid))
+                "(self & cast('Timeline[IvlOut]', solid)).fetch": ("clipped_fetch", ["OZ", "OZ", "B"], "LIST")}),
+    # ---- cache.py, the rest.  Keys (what _get_key returns: a tuple of field values, or None) are values of an
+    # abstract type KEY with == as the parameter key_eqb; a dict is the list of its pairs in insertion order
+    # (Model/Loop.v); `left_by_key.keys() & right_by_key.keys()` is read in the insertion order of the left
+    # dictionary (TRUSTED: Python does not specify the iteration order of that set; for two different keys the
+    # loop bodies touch different intervals, so another order could only permute stored intervals that have
+    # the same (start, end)).  self._sink.overlapping is Timeline.overlapping on the sink's store.
+    dict(name="g_cache_stitch_at", file="calgebra/cache.py", cls="CachedTimeline", func="_stitch_at", kind="proc",
+         tyvars=["KEYS", "KEY"], types={"KEYS": "KEYS", "KEY": "KEY"},
+         dicts={"DKI": dict(key="O:KEY", val="IVL", eqb="(opt_eqb key_eqb)")},
+         params=[("self_key_fields", "O:KEYS"), ("get_key", "ivl -> option KEY"), ("key_eqb", "KEY -> KEY -> bool"),
+                 ("fresh_left", "B"), ("self_sink", "LIST"), ("point", "Z")],
+         state=["self_sink"], selfattrs={"_key_fields": ("self_key_fields", "O:KEYS")},
+         text_exprs={"fresh_side == 'left'": ("fresh_left", "B")},
+         calls={"self._sink.overlapping": dict(coq="sink_overlapping", pre=["self_sink"], args=["Z"], ret="LIST"),
+                "self._get_key": ("get_key", ["IVL"], "O:KEY")},
+         effects=SINK_EFFECTS),
+    # the whole of _fill_gap: the clipping loop, the cover / heap bookkeeping and the two stitches;
+    # monotonic() is read once: the parameter clock_now
+    dict(name="g_cache_fill_gap", file="calgebra/cache.py", cls="CachedTimeline", func="_fill_gap", kind="proc",
+         tyvars=["KEYS", "KEY"], types={"KEYS": "KEYS", "KEY": "KEY", "HENT": "hent", "COV": "cov", "N": "N"},
+         tuples={"HENT": ["Z", "N", "COV"]},
+         params=[("self_key_fields", "O:KEYS"), ("get_key", "ivl -> option KEY"), ("key_eqb", "KEY -> KEY -> bool"),
+                 ("source_fetch", FETCH_T), ("self_ttl", "Z"), ("clock_now", "Z"),
+                 ("self_sink", "LIST"), ("self_key_validated", "B"), ("self_cover", "L:COV"), ("self_expiry_seq", "N"),
+                 ("self_expiry_heap", "L:HENT"), ("gap_start", "Z"), ("gap_end", "Z")],
+         state=["self_sink", "self_key_validated", "self_cover", "self_expiry_seq", "self_expiry_heap"],
+         selfattrs={"_key_validated": ("self_key_validated", "B"), "_key_fields": ("self_key_fields", "O:KEYS"),
+                    "_expiry_seq": ("self_expiry_seq", "N"), "_expiry_heap": ("self_expiry_heap", "L:HENT"),
+                    "ttl": ("self_ttl", "Z")},
+         calls={"self.source.fetch": ("source_fetch", ["OZ", "OZ", "B"], "LIST"),
+                "monotonic": dict(coq="clock_now", args=[], ret="Z"),
+                "CoverInterval": dict(coq="mkCov", args=[], kw=[("start", "Z"), ("end", "Z"), ("created", "Z")],
+                                      ret="COV")},
+         attrs={("COV", "created"): ("cv_t", "Z")},
+         binops={("N", "+", "Z"): ("N_plus_Z", "N")},
+         effects=dict(SINK_EFFECTS, **{
+             "self._get_key": dict(var=None, args=["IVL"]),
+             "self._cover.add": dict(var="self_cover", args=["COV"], update="(cov_add {0} {var})"),
+             "heapq.heappush": dict(var="self_expiry_heap", args=["L:HENT", "HENT"], update="(heap_push {1} {var})"),
+             "self._stitch_at": dict(var="self_sink", args=["Z"],
+                                     kwmap={"fresh_side": {"'left'": "true", "'right'": "false"}},
+                                     update="(g_cache_stitch_at self_key_fields get_key key_eqb {fresh_side} {var} {0})")})),
+    dict(name="g_cache_fetch_sink", file="calgebra/cache.py", cls="CachedTimeline", func="_fetch_sink", kind="gen",
+         params=[("self_sink", "LIST"), ("start", "Z"), ("end", "Z"), ("reverse", "B")],
+         calls={"self._sink.fetch": dict(coq="fetch_static", pre=["self_sink"], args=["OZ", "OZ", "B"], fetch=True,
+                                         ret="LIST")}),
+    # CachedTimeline.fetch.  The clock is a state variable: every monotonic() reading (one in _evict_expired,
+    # one per _fill_gap) returns it and moves it on by the parameter tick (Model/Cache.v).  The gaps
+    # `(query - self._cover).fetch(start, end)` are the model's gaps_of on the cover as it is when the loop
+    # starts (TRUSTED reading of that expression: the Difference generator snapshots the cover's store at its
+    # first next(), before the first _fill_gap).  `with self._lock:` is transparent (lock discipline: C11).
+    dict(name="g_cache_fetch", file="calgebra/cache.py", cls="CachedTimeline", func="fetch", kind="proc", res=True,
+         yields=True, with_ok=["self._lock"], assume_not_none=["gap.start", "gap.end"],
+         tyvars=["KEYS", "KEY"], types={"KEYS": "KEYS", "KEY": "KEY", "HENT": "hent", "COV": "cov", "N": "N", "U": "unit"},
+         params=[("self_key_fields", "O:KEYS"), ("get_key", "ivl -> option KEY"), ("key_eqb", "KEY -> KEY -> bool"),
+                 ("source_fetch", FETCH_T), ("self_ttl", "Z"), ("tick", "Z"),
+                 ("clock", "Z"), ("self_sink", "LIST"), ("self_key_validated", "B"), ("self_cover", "L:COV"),
+                 ("self_expiry_seq", "N"), ("self_expiry_heap", "L:HENT"),
+                 ("start", "OZ"), ("end", "OZ"), ("reverse", "B")],
+         state=["clock", "self_sink", "self_key_validated", "self_cover", "self_expiry_seq", "self_expiry_heap"],
+         text_exprs={"timeline(Interval(start=start, end=end))": ("tt", "U"),
+                     "(query - self._cover).fetch(start, end)": ("(gaps_of self_cover (ozd start) (ozd end_))", "LIST")},
+         calls={"self._fetch_sink": dict(coq="g_cache_fetch_sink", pre=["self_sink"], args=["Z", "Z"],
+                                         kw=[("reverse", "B")], ret="LIST")},
+         effects={
+             "self._evict_expired": dict(
+                 vars=["self_expiry_heap", "self_cover", "self_sink", "clock"], args=[], res=True, fuel=True,
+                 update="(res_bind (g_cache_evict_expired fuel clock self_expiry_heap self_cover self_sink) "
+                        "(fun x_ => RDone (x_, clock + tick)))"),
+             "self._fill_gap": dict(
+                 vars=["self_sink", "self_key_validated", "self_cover", "self_expiry_seq", "self_expiry_heap", "clock"],
+                 args=["Z", "Z"],
+                 update="(g_cache_fill_gap self_key_fields get_key key_eqb source_fetch self_ttl clock self_sink "
+                        "self_key_validated self_cover self_expiry_seq self_expiry_heap {0} {1}, clock + tick)")}),
+    # ---- core.py: the fetch / overlapping wrappers.  Operands are values of an abstract type TL with their
+    # fetch (and overlapping) as function parameters.  heapq.merge is the library model merge_by, accepted
+    # only with exactly these two key lambdas.
+    dict(name="g_union_fetch", file=CORE, cls="Union", func="fetch", kind="expr", ret="LIST",
+         tyvars=["TL"], types={"TL": "TL"},
+         params=[("self_sources", "L:TL"), ("tl_fetch", "TL -> " + FETCH_T),
+                 ("start", "OZ"), ("end", "OZ"), ("reverse", "B")],
+         selfattrs={"sources": ("self_sources", "L:TL")},
+         methods={("TL", "fetch"): dict(coq="tl_fetch", args=["OZ", "OZ", "B"], fetch=True, ret="LIST")},
+         text_exprs={"heapq.merge(*streams, key=lambda e: (-e.finite_start, -e.finite_end))":
+                     ("(merge_by lt_rev streams)", "LIST"),
+                     "heapq.merge(*streams, key=lambda e: (e.finite_start, e.finite_end))":
+                     ("(merge_by lt_fwd streams)", "LIST")}),
+    dict(name="g_diff_fetch", file=CORE, cls="Difference", func="fetch", kind="expr", res=True, ret="LIST",
+         tyvars=["TL"], types={"TL": "TL"},
+         params=[("source_fetch", FETCH_T), ("self_subtractors", "L:TL"), ("tl_fetch", "TL -> " + FETCH_T),
+                 ("start", "OZ"), ("end", "OZ"), ("reverse", "B")],
+         selfattrs={"subtractors": ("self_subtractors", "L:TL")},
+         methods={("TL", "fetch"): dict(coq="tl_fetch", args=["OZ", "OZ", "B"], fetch=True, ret="LIST")},
+         calls={"self.source.fetch": ("source_fetch", ["OZ", "OZ", "B"], "LIST"),
+                "self._sweep": dict(coq="g_diff_sweep", args=["LIST", "L:LIST"], ret="LIST", res=True, fuel=True)}),
+    # Difference.overlapping returns the generator generate(): read as the generator itself
+    dict(name="g_diff_overlapping", file=CORE, cls="Difference", func="overlapping", kind="gen", res=True,
+         returned_generator="generate", tyvars=["TL"], types={"TL": "TL"},
+         params=[("source_overlapping", "Z -> list ivl"), ("self_subtractors", "L:TL"), ("tl_fetch", "TL -> " + FETCH_T),
+                 ("point", "Z")],
+         selfattrs={"subtractors": ("self_subtractors", "L:TL")},
+         methods={("TL", "fetch"): dict(coq="tl_fetch", args=["OZ", "OZ", "B"], fetch=True, ret="LIST")},
+         calls={"self.source.overlapping": ("source_overlapping", ["Z"], "LIST"),
+                "self._sweep": dict(coq="g_diff_sweep", args=["LIST", "L:LIST"], ret="LIST", res=True, fuel=True)}),
+    # Complement.overlapping: self.fetch is the complement's own fetch (a parameter)
+    dict(name="g_compl_overlapping", file=CORE, cls="Complement", func="overlapping", kind="expr", ret="LIST",
+         params=[("source_fetch", FETCH_T), ("self_fetch", FETCH_T), ("point", "Z")],
+         calls={"self.source.fetch": ("source_fetch", ["OZ", "OZ", "B"], "LIST"),
+                "self.fetch": ("self_fetch", ["OZ", "OZ", "B"], "LIST")}),
+    # Timeline.overlapping (the base implementation)
+    dict(name="g_base_overlapping", file=CORE, cls="Timeline", func="overlapping", kind="expr", ret="LIST",
+         params=[("self_fetch", FETCH_T), ("point", "Z")],
+         calls={"self.fetch": ("self_fetch", ["OZ", "OZ", "B"], "LIST")}),
+    # ---- recurrence.py: _occurrence_to_interval.  Aware datetimes are values of an abstract type DT; the
+    # datetime operations are typed library parameters (the equivalence theorem instantiates them with the
+    # zone model: mk_wall / wall_to_utc / utc_to_wall).  x.timestamp() of a whole-second datetime is an int;
+    # replace(hour=, minute=, second=) is total here (it raises ValueError for fields out of range: excluded
+    # by the theorem's hypothesis rule_accepted).
+    dict(name="g_recur_occurrence_to_interval", file="calgebra/recurrence.py", cls="RecurringPattern",
+         func="_occurrence_to_interval", kind="expr", ret="IVL", tyvars=["DT", "TD"], types={"DT": "DT", "TD": "TD"},
+         params=[("self_start_seconds", "Z"), ("self_duration_seconds", "Z"),
+                 ("dt_replace_hms", "DT -> Z -> Z -> Z -> DT"), ("dt_timestamp", "DT -> Z"),
+                 ("dt_fromtimestamp", "Z -> DT"), ("td_of_seconds", "Z -> TD"), ("dt_add", "DT -> TD -> DT"),
+                 ("interval_class", "Z -> Z -> ivl"), ("occurrence", "DT")],
+         selfattrs={"start_seconds": ("self_start_seconds", "Z"), "duration_seconds": ("self_duration_seconds", "Z")},
+         calls={"datetime.fromtimestamp": dict(coq="dt_fromtimestamp", args=["Z"], fixed={"tz": "window_start.tzinfo"},
+                                               ret="DT"),
+                "timedelta": dict(coq="td_of_seconds", args=[], kw=[("seconds", "Z")], ret="TD"),
+                "self.interval_class": dict(coq="interval_class", args=[], kw=[("start", "Z"), ("end", "Z")],
+                                            fixed={"**": "self.metadata"}, ret="IVL")},
+         methods={("DT", "replace"): dict(coq="dt_replace_hms", args=[],
+                                          kw=[("hour", "Z"), ("minute", "Z"), ("second", "Z")], ret="DT"),
+                  ("DT", "timestamp"): dict(coq="dt_timestamp", args=[], ret="Z")},
+         binops={("DT", "+", "TD"): ("dt_add", "DT")}),
+    # ---- metrics.py: _period_windows_with_dt.  `period` is the sum type of Model/Metrics.v (one constructor
+    # per literal of Period); the datetime operations are typed library parameters as above.
+    dict(name="g_period_windows_dt", file="calgebra/metrics.py", func="_period_windows_with_dt", kind="expr",
+         res=True, ret="L:WIN", tyvars=["DT", "TD"],
+         types={"DT": "DT", "TD": "TD", "WIN": "(DT * Z * Z)", "U": "unit"}, tuples={"WIN": ["DT", "Z", "Z"]},
+         sums=PERIOD_SUM, annotations={"list[tuple[datetime, int, int]]": "L:WIN"},
+         file_has=["Period = Literal['hour', 'day', 'week', 'month', 'year', 'full']",
+                   "from datetime import date, datetime, timedelta"],
+         params=[("p_fromtimestamp", "Z -> DT"), ("p_ymd", "Z -> Z -> Z -> DT"), ("p_ymdh", "Z -> Z -> Z -> Z -> DT"),
+                 ("p_hours", "Z -> TD"), ("p_days", "Z -> TD"), ("p_weeks", "Z -> TD"),
+                 ("p_add", "DT -> TD -> DT"), ("p_sub", "DT -> TD -> DT"), ("p_lt", "DT -> DT -> bool"),
+                 ("p_timestamp", "DT -> Z"), ("p_weekday", "DT -> Z"),
+                 ("p_year", "DT -> Z"), ("p_month", "DT -> Z"), ("p_day", "DT -> Z"), ("p_hour", "DT -> Z"),
+                 ("start_ts", "Z"), ("end_ts", "Z"), ("period", "PERIOD")],
+         text_exprs={"ZoneInfo(tz)": ("tt", "U")},
+         calls={"datetime.fromtimestamp": dict(coq="p_fromtimestamp", args=["Z"], fixed={"tz": "zone"}, ret="DT"),
+                "datetime": [dict(coq="p_ymdh", args=["Z", "Z", "Z", "Z"], fixed={"tzinfo": "zone"}, ret="DT"),
+                             dict(coq="p_ymd", args=["Z", "Z", "Z"], fixed={"tzinfo": "zone"}, ret="DT")],
+                "timedelta": [dict(coq="p_hours", args=[], kw=[("hours", "Z")], ret="TD"),
+                              dict(coq="p_days", args=[], kw=[("days", "Z")], ret="TD"),
+                              dict(coq="p_weeks", args=[], kw=[("weeks", "Z")], ret="TD")]},
+         methods={("DT", "timestamp"): dict(coq="p_timestamp", args=[], ret="Z"),
+                  ("DT", "weekday"): dict(coq="p_weekday", args=[], ret="Z")},
+         attrs={("DT", "year"): ("p_year", "Z"), ("DT", "month"): ("p_month", "Z"), ("DT", "day"): ("p_day", "Z"),
+                ("DT", "hour"): ("p_hour", "Z")},
+         binops={("DT", "+", "TD"): ("p_add", "DT"), ("DT", "-", "TD"): ("p_sub", "DT")},
+         cmpops={("DT", "<", "DT"): "p_lt"}),
 ]
 
 
